@@ -185,6 +185,7 @@ fn backend_signature(f: &CompileFail) -> String {
 // ---------------------------------------------------------------------------------------------
 // C03
 
+pub const SIG05_ENTRY_MUT: &str = "reprinted-text-differs:entry-block-parameter-immutability-lost";
 pub const SIG03_DEAD_TRAP: &str = "pass-pipeline-continues-past-arithmetic-abort-of-baseline";
 pub const SIG03_REVERSE_COPY_PROP: &str = "differs-only-with-memcpyprop-reverse";
 
@@ -438,7 +439,10 @@ pub fn hand_written_ir_is_consistent(ir: &Context) -> Result<(), String> {
 }
 
 fn parse_ir<'e>(engines: &'e sway_core::Engines, text: &str) -> Option<Context<'e>> {
-    match catch(|| sway_ir::parser::parse(text, engines.se(), sway_features::ExperimentalFeatures::default(), Default::default())) {
+    // sway-ir's own tests load their .ir files with `new_encoding: false` (with the new encoding the parser's
+    // "an `entry` that is not `__entry` is also the original entry" rule yields a flag pair no compiler output has)
+    let exp = sway_features::ExperimentalFeatures { new_encoding: false, ..Default::default() };
+    match catch(|| sway_ir::parser::parse(text, engines.se(), exp, Default::default())) {
         Ok(Ok(ir)) => Some(ir),
         _ => None,
     }
@@ -668,6 +672,7 @@ pub fn run_c04(ctx: &Ctx) {
 pub fn alpha_normalise(text: &str) -> String {
     let mut out = String::with_capacity(text.len());
     let mut vals: std::collections::HashMap<String, usize> = Default::default();
+    let mut counter = 0usize;
     let mut mds: std::collections::HashMap<String, usize> = Default::default();
     let b = text.as_bytes();
     let mut i = 0;
@@ -688,8 +693,23 @@ pub fn alpha_normalise(text: &str) -> String {
                 }
                 if k > j + 1 && (k == b.len() || !is_id(b[k])) {
                     let name = &text[i..k];
-                    let n = vals.len();
-                    let id = *vals.entry(name.to_string()).or_insert(n);
+                    // a definition site (`name = ...`, block / function parameter `name: ty`) always gets a fresh number: the
+                    // printer re-defines a shared constant under the same name in every function (and block) that uses it
+                    let mut m = k;
+                    while m < b.len() && b[m] == b' ' {
+                        m += 1;
+                    }
+                    let is_def = m < b.len() && (b[m] == b':' || (b[m] == b'=' && b.get(m + 1) != Some(&b'=')));
+                    let id = if is_def {
+                        counter += 1;
+                        vals.insert(name.to_string(), counter);
+                        counter
+                    } else {
+                        *vals.entry(name.to_string()).or_insert_with(|| {
+                            counter += 1;
+                            counter
+                        })
+                    };
                     out.push_str(&format!("%{id}"));
                     i = k;
                     continue;
@@ -721,8 +741,8 @@ fn interesting_ir(text: &str) -> bool {
 }
 
 /// The round-trip oracle on one IR text. Returns Err((signature, detail)).
-pub fn roundtrip_text(fc: &FastCompiler, t0: &str) -> Result<String, (String, String)> {
-    let parse = |t: &str| catch(|| sway_ir::parser::parse(t, fc.engines.se(), fc.exp, Default::default()));
+pub fn roundtrip_text(engines: &sway_core::Engines, exp: sway_features::ExperimentalFeatures, t0: &str, rep: &Report) -> Result<String, (String, String)> {
+    let parse = |t: &str| catch(|| sway_ir::parser::parse(t, engines.se(), exp, Default::default()));
     let c1 = match parse(t0) {
         Ok(Ok(c)) => c,
         Ok(Err(e)) => return Err(("printed-ir-does-not-parse".into(), format!("{e}"))),
@@ -737,8 +757,18 @@ pub fn roundtrip_text(fc: &FastCompiler, t0: &str) -> Result<String, (String, St
     };
     let (n0, n1) = (alpha_normalise(t0), alpha_normalise(&p1));
     if n0 != n1 {
-        let (l0, l1) = first_diff(&n0, &n1);
-        return Err(("reprinted-text-differs".into(), format!("first differing line:\n  printed : {l0}\n  reprinted: {l1}")));
+        // recorded finding: the parser ignores the `mut` flags of the entry block's parameters (it re-uses the arguments
+        // Function::new created), so the pointee-immutability tags arg_pointee_mutability_tagger put there are lost.
+        // Attributed only if the texts are equal once `mut ` is removed from the `entry(...)` block headers.
+        let strip = |t: &str| -> String { t.lines().map(|l| if l.trim_start().starts_with("entry(") { l.replace("mut ", "") } else { l.to_string() }).collect::<Vec<_>>().join("\n") };
+        if strip(&n0) == strip(&n1) {
+            rep.class("known:entry-block-parameter-immutability-lost");
+            let (l0, l1) = first_diff(&n0, &n1);
+            rep.violation(Violation { signature: SIG05_ENTRY_MUT.into(), summary: format!("printed `{l0}` re-prints as `{l1}`"), replay: json!({"printed_line": l0, "reprinted_line": l1}) });
+        } else {
+            let (l0, l1) = first_diff(&n0, &n1);
+            return Err(("reprinted-text-differs".into(), format!("first differing line:\n  printed : {l0}\n  reprinted: {l1}")));
+        }
     }
     drop(c1);
     let c2 = match parse(&p1) {
@@ -781,15 +811,13 @@ fn c05_eval(case: &C05Case, rep: &Report, corpus: &[(String, String)]) -> Result
                 return Ok(());
             }
             let (name, text) = &corpus[idx(*file, corpus.len())];
-            with_fastc(300, |fc| {
+            PLAIN_ENGINES.with(|engines| {
                 // corpus text is hand-written: bring it into printer form first, then demand the round trip of that
-                let c = match catch(|| sway_ir::parser::parse(text, fc.engines.se(), fc.exp, Default::default())) {
-                    Ok(Ok(c)) => c,
-                    _ => {
-                        rep.class("corpus:does-not-parse");
-                        return Ok(());
-                    }
+                let Some(c) = parse_ir(engines, text) else {
+                    rep.class("corpus:does-not-parse");
+                    return Ok(());
                 };
+                let exp = sway_features::ExperimentalFeatures { new_encoding: false, ..Default::default() };
                 if c.verify().is_err() {
                     rep.class("corpus:not-valid-ir(skipped)");
                     return Ok(());
@@ -801,7 +829,7 @@ fn c05_eval(case: &C05Case, rep: &Report, corpus: &[(String, String)]) -> Result
                 if interesting_ir(&t0) {
                     rep.nontrivial(hash64(t0.as_bytes()));
                 }
-                roundtrip_text(fc, &t0).map(|_| ()).map_err(|(sig, d)| (format!("{sig}"), format!("{name}: {d}"), json!({"ir_file": name, "ir_text": t0, "detail": d})))
+                roundtrip_text(engines, exp, &t0, rep).map(|_| ()).map_err(|(sig, d)| (format!("{sig}"), format!("{name}: {d}"), json!({"ir_file": name, "ir_text": t0, "detail": d})))
             })
         }
         C05Case::Gen { tape, no_trap, o1, stage, behave } => {
@@ -853,7 +881,7 @@ fn c05_eval(case: &C05Case, rep: &Report, corpus: &[(String, String)]) -> Result
                     rep.nontrivial(h);
                 }
                 let mk = |sig: String, d: String| -> Fail { (sig, d.clone(), json!({"tape": tape, "no_trap": no_trap, "o1": o1, "stage": k, "passes_before": list[..k], "src": src, "ir_text": truncate(&text, 20000), "detail": d})) };
-                let p1 = roundtrip_text(fc, &text).map_err(|(s, d)| mk(s, d))?;
+                let p1 = roundtrip_text(&fc.engines, fc.exp, &text, rep).map_err(|(s, d)| mk(s, d))?;
                 if let Some(Ok(orig)) = orig_bc {
                     // behaviour: continue the same pipeline from the re-parsed text
                     let mut c = match sway_ir::parser::parse(&p1, fc.engines.se(), fc.exp, Default::default()) {
@@ -982,6 +1010,17 @@ pub fn dev_passes(args: &[String]) {
             });
           });
         }
+    }
+    std::process::exit(0);
+}
+
+/// development helper: `vp ir-parse <file.ir>` parses, verifies and reports the round-trip oracle
+pub fn dev_parse(args: &[String]) {
+    let text = std::fs::read_to_string(&args[0]).expect("read");
+    let engines = sway_core::Engines::default();
+    match sway_ir::parser::parse(&text, engines.se(), sway_features::ExperimentalFeatures::default(), Default::default()) {
+        Ok(c) => println!("parse ok; verify: {:?}", c.verify().map_err(|e| e.to_string())),
+        Err(e) => println!("parse error: {e}"),
     }
     std::process::exit(0);
 }
